@@ -502,6 +502,53 @@ def adjoint2(T):
     else:
         raise ValueError('bad argument')
 
+def trnorm2(T):
+    r"""
+    Normalize an SO(2) or SE(2) matrix
+
+    :param T: SE(2) or SO(2) matrix
+    :type T: ndarray(3,3) or ndarray(2,2)
+    :return: normalized SE(2) or SO(2) matrix
+    :rtype: ndarray(3,3) or ndarray(2,2)
+    :raises ValueError: bad arguments
+
+    - ``trnorm2(R)`` is guaranteed to be a proper orthogonal matrix rotation
+      matrix (2x2) which is *close* to the input matrix R (2x2).
+    - ``trnorm2(T)`` as above but the rotational submatrix of the homogeneous
+      transformation T (3x3) is normalised while the translational part is
+      unchanged.
+
+    The direction of the second column (the y-axis) is kept; the first column is
+    the unit vector perpendicular to it that makes the determinant +1.
+
+    .. runblock:: pycon
+
+        >>> from spatialmath.base import *
+        >>> from numpy import linalg
+        >>> T = trot2(45, 'deg', t=[3, 4])
+        >>> linalg.det(T[:2,:2]) - 1 # is a valid SO(2)
+        >>> T = T @ T @ T @ T @ T @ T @ T @ T @ T @ T @ T @ T @ T
+        >>> linalg.det(T[:2,:2]) - 1  # not quite a valid SE(2) anymore
+        >>> T = trnorm2(T)
+        >>> linalg.det(T[:2,:2]) - 1  # once more a valid SE(2)
+
+    .. note:: Used to prevent finite word length arithmetic causing transforms to
+       become 'unnormalized'.
+
+    :seealso: :func:`~spatialmath.base.transforms3d.trnorm`
+    """
+
+    if not ishom2(T) and not isrot2(T):
+        raise ValueError("expecting SO(2) or SE(2)")
+
+    a = base.unitvec(T[:2, 1])            # y-axis direction is kept
+    R = np.array([[a[1], a[0]], [-a[0], a[1]]])
+
+    if ishom2(T):
+        return base.rt2tr(R, T[:2, 2])
+    else:
+        return R
+
 def trinterp2(start, end, s=None):
     """
     Interpolate SE(2) or SO(2) matrices
